@@ -235,14 +235,26 @@ func (rl *RateLimitValidator) cleanupRoutine() {
 // cleanupOldLimiters removes IP limiter entries that haven't been accessed recently.
 // Called periodically from a background goroutine.
 func (rl *RateLimitValidator) cleanupOldLimiters() {
-	cutoff := time.Now().Add(-10 * time.Minute)
+	now := time.Now()
 
 	rl.ipLimiters.Range(func(key string, limiterInfo *ipLimiterInfo) bool {
 		limiterInfo.mu.RLock()
 		lastAccess := limiterInfo.lastAccess
+		requestLimit := limiterInfo.requestLimit
 		limiterInfo.mu.RUnlock()
 
-		if lastAccess.Before(cutoff) {
+		// A forgotten client starts over with a full bucket. That is only harmless once its own
+		// bucket would have refilled anyway: with a burst worth more than ten minutes of tokens
+		// (burst_size 40 at 2 requests a minute), dropping a drained bucket after ten idle minutes
+		// would hand the client a second burst long before the rate allows it.
+		idleLimit := 10 * time.Minute
+		if requestLimit > 0 {
+			if refill := time.Duration(float64(rl.burstSize) / float64(requestLimit) * float64(time.Minute)); refill > idleLimit {
+				idleLimit = refill
+			}
+		}
+
+		if lastAccess.Before(now.Add(-idleLimit)) {
 			rl.ipLimiters.Delete(key)
 		}
 		return true
